@@ -36,6 +36,7 @@ type vfScriptedRecv struct {
 	puts    []vfPut
 	fail    func(path string, n int) int // status to answer (0 = 200); n = arrival index of this path
 	delay   time.Duration
+	ackWait time.Duration // answer this long after the request has been logged
 	perPath map[string]int
 	srv     *httptest.Server
 }
@@ -56,6 +57,9 @@ func vfNewScriptedRecv() *vfScriptedRecv {
 			code = s.fail(r.URL.Path, n)
 		}
 		s.mu.Unlock()
+		if s.ackWait > 0 {
+			time.Sleep(s.ackWait)
+		}
 		if r.Method != "PUT" {
 			w.WriteHeader(405)
 			return
@@ -137,6 +141,10 @@ func TestVerifC16(t *testing.T) {
 		{asset: "testpic_alt_seg_dur_stl", mpd: "Manifest.mpd", cfg: "", testNowMS: 14000, steps: 4},
 		{asset: "WAVE/vectors/cfhd_sets/14.985_29.97_59.94/t1/2022-10-17", mpd: "stream.mpd", cfg: "", testNowMS: 7000, steps: 6},
 		{asset: "testpic_2s", mpd: "Manifest.mpd", cfg: "", testNowMS: 100500, steps: 6, deleteAfter: 2},
+		{asset: "testpic_2s", mpd: "Manifest.mpd", cfg: "", testNowMS: 100500, steps: 6, deleteAfter: 2, recvFail: "slow-ack"},
+		{asset: "testpic_2s", mpd: "Manifest.mpd", cfg: "segtimeline_1", testNowMS: 90500, steps: 6, deleteAfter: 1, recvFail: "slow-ack", streams: true},
+		{asset: "testpic_6s", mpd: "Manifest.mpd", cfg: "", testNowMS: 70500, steps: 6, deleteAfter: 3, recvFail: "slow-ack"},
+		{asset: "testpic_8s", mpd: "Manifest.mpd", cfg: "", testNowMS: 170500, steps: 6, deleteAfter: 2, recvFail: "slow-ack"},
 		{asset: "testpic_2s", mpd: "Manifest.mpd", cfg: "", testNowMS: 100500, steps: 4, recvFail: "500-on-2nd-media"},
 		{asset: "testpic_2s", mpd: "Manifest.mpd", cfg: "segtimeline_1", testNowMS: 100500, steps: 3, recvFail: "slow"},
 		{asset: "testpic_2s", mpd: "Manifest.mpd", cfg: "ato_1/chunkdur_0.5", testNowMS: 100500, steps: 2},
@@ -198,6 +206,8 @@ func vfC16Session(r *rep.R, s *Server, a *ora.Asset, c vfSessCfg, ci int) {
 		}
 	case "slow":
 		rc.delay = 120 * time.Millisecond
+	case "slow-ack":
+		rc.ackWait = 150 * time.Millisecond // the sender is still waiting for the answers when the next API call arrives
 	case "delete-during-init":
 		rc.delay = 250 * time.Millisecond // every PUT (the inits come first) is held for a while
 	}
@@ -267,7 +277,11 @@ func vfC16Session(r *rep.R, s *Server, a *ora.Asset, c vfSessCfg, ci int) {
 		x, _ := strconv.ParseInt(m[1], 10, 64)
 		atoMS = x * 1000
 	}
-	first := a.NewestAvail(a.Ref, c.testNowMS, 0, atoMS) + 1
+	// "right after the live edge": with an availabilityTimeOffset the segment in progress is advertised as available while it is
+	// not complete; the statement does not say which edge is meant, so both readings are accepted (all endpoints must agree)
+	first := a.NewestAvail(a.Ref, c.testNowMS, 0, 0) + 1
+	firstAlt := a.NewestAvail(a.Ref, c.testNowMS, 0, atoMS) + 1
+	firstFixed := false
 	wantMedia := c.steps
 	if c.duration > 0 {
 		segMS := a.LoopMS / int64(a.Ref.N())
@@ -344,6 +358,12 @@ func vfC16Session(r *rep.R, s *Server, a *ora.Asset, c vfSessCfg, ci int) {
 			return
 		}
 	}
+	if c.deleteAfter >= c.steps && c.deleteAfter > 0 {
+		// the scripted steps ended before the DELETE came up: it is issued now
+		if dr := vfDo(s, "DELETE", "/api/cmaf-ingests/"+cr.ID, nil, nil); dr.Code != 200 {
+			r.Violation(fmt.Sprintf("delete-status-%d", dr.Code), det(""))
+		}
+	}
 	// a session that has ended (duration reached or deleted) must stay silent: one further step must return and deliver nothing
 	if c.duration > 0 && stepsDone >= wantMedia || c.deleteAfter > 0 {
 		before := len(rc.snapshot())
@@ -352,7 +372,7 @@ func vfC16Session(r *rep.R, s *Server, a *ora.Asset, c vfSessCfg, ci int) {
 		select {
 		case code := <-done:
 			time.Sleep(120 * time.Millisecond)
-			if after := len(rc.snapshot()); after != before && !(code == 200 && c.deleteAfter > 0 && false) {
+			if after := len(rc.snapshot()); after != before {
 				what := "duration"
 				if c.deleteAfter > 0 {
 					what = "delete"
@@ -433,6 +453,12 @@ func vfC16Session(r *rep.R, s *Server, a *ora.Asset, c vfSessCfg, ci int) {
 			if err != nil {
 				r.Violation("media-put-unparseable", det(p.path+": "+err.Error()))
 				return
+			}
+			if !firstFixed && i == 1 {
+				if int64(ps.Seq) == snr+firstAlt {
+					first = firstAlt
+				}
+				firstFixed = true
 			}
 			n := first + int64(i-1)
 			if int64(ps.Seq) != snr+n {
